@@ -17,6 +17,18 @@ CLAIMED = {
  "C04": ("exploration", "property-based testing: valid histories must be accepted, histories with one planted cause must be rejected visibly (reference model decides), row invariants on every row",
          "Both directions of the iff are explored: generated valid histories (incl. non-terminating split factors) must not be rejected; each listed cause planted at a chosen row must be rejected with a message naming the row, the exact ledger prefix shown, the security excluded from totals, in text, CSV-writer and render-model modes.",
          "Reference model decides which histories contain a listed cause. One known finding (R5, rounding residue after chains of non-terminating splits) is excluded by a root-cause classifier.", "DESIGN.md section 4 C04"),
+ "C07": ("exploration", "metamorphic property-based testing: generated input vs generated re-layout (files, columns, headers, unknown columns, admissible row permutation)",
+         "Each generated input is rendered once in canonical form and once re-laid-out (1-5 files, permuted/renamed/padded/absent/extra columns, legacy date header, CRLF, admissible row permutation); every cell of every table, footer, aggregate and costs table must agree.",
+         "Money figures are compared within 1e-9 and affiliate display spelling / note order are ignored (those are C09's business).", "DESIGN.md section 4 C07"),
+ "C08": ("exploration", "metamorphic property-based testing: runs of A, B and A+B over disjoint securities, B optionally failing",
+         "Tables of each half must be identical in the combined run; aggregate(A+B) = aggregate(A) + aggregate(B) per year; a failure planted in B (every C04 cause, or a refused split combination) must not change or suppress A.",
+         "Uses the C04 planting machinery to make B fail.", "DESIGN.md section 4 C08"),
+ "C09": ("exploration", "repetition under varying hash seeds: k in-process runs plus the real main in separate processes, byte comparison",
+         "The same generated input is run 6 (quick) / 16 (thorough) times in one process (fresh RandomState per HashMap) and through the real acb main in 4 separate processes; text, CSV-directory, total-costs and summary outputs must be byte-identical.",
+         "Hash seeds come from the OS, not from VERIF_SEED; detection per non-trivial case is probabilistic, a correct tree cannot fail.", "DESIGN.md section 4 C09"),
+ "C16": ("exploration", "differential property-based testing: -b opening positions vs prepended opening purchases; malformed specifications",
+         "Every row of the original input must show the same figures under '-b SYM:n:c' and under a prepended Buy (n shares, total cost c, default affiliate, 400 days earlier); opening positions of absent symbols change nothing; malformed strings are rejected (library) and rejected before any file is opened (binary).",
+         "Zero-share opening positions are compared with no purchase.", "DESIGN.md section 4 C16"),
 }
 NOT_YET = "check not built yet in this round (planned: see DESIGN.md section 4)"
 
